@@ -66,6 +66,30 @@ def main(out):
         # which file each WAL lock goes to is part of the shape: all on the -shm file
         if re.search(r"lock\(\s*db_file", m2.group(3)):
             raise ValueError("lock_all: a WAL-branch lock on the database file")
+        # restore(): apart from the "destination is empty" shortcut, nothing of the destination is
+        # touched before lock_all returned, and the lock holder (dst_locked / the files) lives
+        # until the function returns
+        mr = re.search(r"pub fn restore[^(]*\((.*?)\n\}\n", s, re.S)
+        if not mr:
+            raise ValueError("restore not found")
+        rb = mr.group(1)
+        me = re.search(r"if\s+dst_meta\.len\(\)\s*==\s*0\s*\{.*?return\s+Ok\(Restored\s*\{.*?\}\);\s*\}", rb, re.S)
+        if not me:
+            raise ValueError("restore: the empty-destination shortcut was not found")
+        rest = rb[me.end():]
+        pl = rest.find("lock_all(")
+        if pl < 0:
+            raise ValueError("restore: lock_all is not called after the empty-destination shortcut")
+        for frag in ["remove_file(", ".truncate(true)", "copy_check(", "write_at(", ".seek("]:
+            pf = rest.find(frag)
+            if pf >= 0 and pf < pl:
+                raise ValueError("restore: %s before lock_all" % frag)
+        if "copy_check(" not in rest[pl:]:
+            raise ValueError("restore: no copy after lock_all")
+        if re.search(r"drop\(\s*dst_locked|drop\(\s*dst_db_file|LockType::Unlock", rest):
+            raise ValueError("restore: a lock is released before the function returns")
+        if not re.search(r"let\s+mut\s+dst_locked\s*=\s*lock_all\(&mut dst_db_file,", rest):
+            raise ValueError("restore: the result of lock_all is not kept in dst_locked")
         # the SHARED range: lock() widens l_len to 510 for SHARED
         if not re.search(r"if\s+l_start\s*==\s*SHARED\s*\{\s*l_len\s*=\s*510;\s*\}", s):
             raise ValueError("lock(): the SHARED range (510 bytes) rule was not found")
@@ -84,7 +108,10 @@ def main(out):
         "(* lock_all, in program order: (kind, lock byte) *)",
         "Definition lock_all_probe : list (lk * Z) := %s." % lst(probe),
         "Definition lock_all_rollback : list (lk * Z) := %s." % lst(rollback),
-        "Definition lock_all_wal : list (lk * Z) := %s." % lst(wal), ""])
+        "Definition lock_all_wal : list (lk * Z) := %s." % lst(wal),
+        "(* restore(): checked by the translator -- lock_all precedes every access to a non-empty",
+        "   destination and its locks are held until restore returns *)",
+        "Definition restore_locks_first : bool := true.", ""])
     os.makedirs(os.path.dirname(out), exist_ok=True)
     old = open(out).read() if os.path.exists(out) else None
     if old != txt:
